@@ -706,3 +706,166 @@ impl Ctx {
         }
     }
 }
+
+// ---- C04 (ii): string contents; C15 (ii): doc comments in exported files -----------------------------
+
+fn doc_lines_present(block: &str, texts: &[&str]) -> Vec<String> {
+    let mut missing = vec![];
+    for t in texts {
+        for line in t.lines() {
+            let l = line.trim();
+            if l.is_empty() {
+                continue;
+            }
+            let esc = l.replace("*/", "*\\/");
+            if !(block.contains(l) || block.contains(&esc)) {
+                missing.push(l.to_string());
+            }
+        }
+    }
+    missing
+}
+
+impl Ctx {
+    /// The exported text is a well-formed module, and the *values* of its property keys and string
+    /// literal types (as read by swc) include exactly the expected Rust-side strings.
+    pub fn c04_strings<T: ts_rs::TS + 'static>(&mut self, label: &str, keys: &[&str], lits: &[&str]) {
+        let text = match guarded(|| T::export_to_string()) {
+            Ok(Ok(t)) => t,
+            other => {
+                self.violation("export-to-string-fails", json!({"type": label, "result": format!("{other:?}")}));
+                return;
+            }
+        };
+        self.rep.evaluations += 1;
+        self.count("files", 1);
+        let before = self.rep.violations.len();
+        check_module_text(self, label, &text, &[T::ident()]);
+        if self.rep.violations.len() != before {
+            return;
+        }
+        if let Ok(m) = tsmodel::parse_module(&text) {
+            let (mut ks, mut ls) = (vec![], vec![]);
+            for d in &m.decls {
+                keys_and_literals(&d.body, &mut ks, &mut ls);
+            }
+            for k in keys {
+                if !ks.iter().any(|x| x == k) {
+                    self.violation("property-key-value-differs-from-rust-string", json!({"type": label, "expected_key": k, "keys_read_by_parser": ks, "text": text}));
+                }
+            }
+            for l in lits {
+                if !ls.iter().any(|x| x == l) {
+                    self.violation("literal-value-differs-from-rust-string", json!({"type": label, "expected_literal": l, "literals_read_by_parser": ls, "text": text}));
+                }
+            }
+        }
+    }
+
+    /// Documentation placement and containment in the exported file of `T`, alone and merged with
+    /// two neighbours; `Plain` is the same type without any documentation.
+    /// position: "type" | "field:<name>" | "dropped"
+    pub fn c15_docs<T: ts_rs::TS + 'static, Plain: ts_rs::TS + 'static>(&mut self, label: &str, position: &str, texts: &[&str]) {
+        let text = match guarded(|| T::export_to_string()) {
+            Ok(Ok(t)) => t,
+            other => {
+                self.violation("export-to-string-fails", json!({"type": label, "result": format!("{other:?}")}));
+                return;
+            }
+        };
+        let plain = match guarded(|| Plain::export_to_string()) {
+            Ok(Ok(t)) => t,
+            other => {
+                self.violation("export-to-string-fails", json!({"type": label, "result": format!("{other:?}")}));
+                return;
+            }
+        };
+        // neighbours sorting before and after `T` (named "Mid")
+        let note = ts_rs::__verif::NOTE;
+        let first = format!("{note}\nexport type Aaa = number;\n");
+        let last = format!("{note}\nexport type Zzz = string;\n");
+        let merged_orders: Vec<(&str, Result<String, String>)> = vec![
+            ("first,T,last", guarded(|| {
+                let a = format!("{note}{}", ts_rs::__verif::merge(first.clone(), text.clone()));
+                format!("{note}{}", ts_rs::__verif::merge(a, last.clone()))
+            })),
+            ("T,last,first", guarded(|| {
+                let a = format!("{note}{}", ts_rs::__verif::merge(text.clone(), last.clone()));
+                format!("{note}{}", ts_rs::__verif::merge(a, first.clone()))
+            })),
+            ("last,first,T", guarded(|| {
+                let a = format!("{note}{}", ts_rs::__verif::merge(last.clone(), first.clone()));
+                format!("{note}{}", ts_rs::__verif::merge(a, text.clone()))
+            })),
+        ];
+        let ident = T::ident();
+        let plain_decl = tsmodel::parse_module(&plain).ok().and_then(|m| m.decls.into_iter().next());
+        let mut files: Vec<(String, String, Vec<String>)> = vec![("alone".into(), text.clone(), vec![ident.clone()])];
+        for (o, r) in merged_orders {
+            match r {
+                Ok(t) => files.push((format!("merged:{o}"), t, vec!["Aaa".into(), ident.clone(), "Zzz".into()])),
+                Err(p) => self.violation("merge-panics", json!({"type": label, "order": o, "panic": p})),
+            }
+        }
+        for (how, file, names) in files {
+            self.rep.evaluations += 1;
+            let merged = how != "alone";
+            let m = match tsmodel::parse_module(&file) {
+                Ok(m) => m,
+                Err(e) => {
+                    self.violation(if merged { "merged-file-does-not-parse" } else { "file-does-not-parse" }, json!({"type": label, "how": how, "text": file, "error": format!("{e:?}")}));
+                    continue;
+                }
+            };
+            let declared: Vec<String> = m.decls.iter().map(|d| d.name.clone()).collect();
+            if !m.layout_errors.is_empty() || declared != names {
+                self.violation(
+                    if merged { "documentation-read-as-code-after-merge" } else { "documentation-read-as-code" },
+                    json!({"type": label, "how": how, "text": file, "layout": m.layout_errors, "declared": declared, "expected": names}),
+                );
+                continue;
+            }
+            let d = m.decls.iter().find(|d| d.name == ident).unwrap();
+            // (1) the documentation never alters the type
+            if let Some(p) = &plain_decl {
+                if d.body != p.body || d.params != p.params {
+                    self.violation("documentation-changes-the-declared-type", json!({"type": label, "how": how, "text": file, "plain": plain}));
+                }
+            }
+            // (3) placement
+            let non_empty = texts.iter().any(|t| !t.trim().is_empty());
+            let comments: Option<Vec<String>> = if position == "type" {
+                Some(d.comments.clone())
+            } else if let Some(f) = position.strip_prefix("field:") {
+                find_prop(&d.body, f).map(|p| p.comments.clone())
+            } else {
+                None
+            };
+            if let Some(cs) = comments {
+                if !texts.is_empty() {
+                    if cs.len() != 1 {
+                        self.violation(
+                            if merged { "doc-comment-not-one-block-after-merge" } else { "doc-comment-not-one-block-before-its-item" },
+                            json!({"type": label, "how": how, "position": position, "comments_found": cs, "text": file}),
+                        );
+                    } else if non_empty {
+                        let missing = doc_lines_present(&cs[0], texts);
+                        if !missing.is_empty() {
+                            self.violation("doc-text-missing-from-comment", json!({"type": label, "how": how, "missing": missing, "comment": cs[0], "text": file}));
+                        }
+                    }
+                }
+            }
+            self.count("files_checked", 1);
+        }
+    }
+}
+
+fn find_prop<'a>(t: &'a Ty, name: &str) -> Option<&'a tsmodel::Prop> {
+    match t {
+        Ty::Object(o) => o.props.iter().find(|p| p.key == name).or_else(|| o.props.iter().find_map(|p| find_prop(&p.ty, name))),
+        Ty::Union(v) | Ty::Inter(v) | Ty::Tuple(v) => v.iter().find_map(|x| find_prop(x, name)),
+        Ty::Array(e) => find_prop(e, name),
+        _ => None,
+    }
+}
